@@ -38,7 +38,7 @@ def _writePotential(potential, cutoff, gridPoints, meshResolution, out ):
   r=0.0
   for i in range(gridPoints):
     r += meshResolution
-    l.append(potential.energy(r))
+    l.append(_representable(potential.energy(r)))
 
     if len(l) == 4:
       #List has 4 elements, dump a row
@@ -51,7 +51,7 @@ def _writePotential(potential, cutoff, gridPoints, meshResolution, out ):
   r = 0.0
   for i in range(gridPoints):
     r += meshResolution
-    l.append(_calculateForce(potential, r))
+    l.append(_representable(_calculateForce(potential, r)))
 
     if len(l) == 4:
       #List has 4 elements, dump a row
@@ -61,6 +61,13 @@ def _writePotential(potential, cutoff, gridPoints, meshResolution, out ):
 
   #Dump the output to out
   out.write(outputbuilder.getvalue())
+
+def _representable(value):
+  """The data records of a TABLE file are made of fixed 15 character fields, which leaves room for a two digit exponent only:
+  magnitudes below 1e-99 (printed with a three digit exponent they would be 16 characters wide) are written as zero."""
+  if abs(value) < 1e-99:
+    return 0.0
+  return value
 
 def _calculateForce(pot, r):
   """Calls pot.force for separation (r) and returns DL_POLY -r dU/dr values rather than
